@@ -4,13 +4,13 @@ open CaddyModel.C12
 #print axioms get_pure
 #print axioms access_never_panics
 #print axioms get_is_lookup
-#print axioms get_is_lookup_partial
-#print axioms get_is_lookup_full_fails
-#print axioms write_effect_put_partial
-#print axioms write_effect_patch_partial
-#print axioms write_effect_post_partial
-#print axioms write_effect_delete_partial
-#print axioms write_effect_full_fails
+#print axioms get_returns_every_value
+#print axioms get_is_lookup_old_code_fails
+#print axioms write_effect_put
+#print axioms write_effect_patch
+#print axioms write_effect_post
+#print axioms write_effect_delete
+#print axioms write_effect_old_code_fails
 #print axioms write_frame
 #print axioms if_match_succeeds_only_if_unchanged
 #print axioms if_match_mismatch_changes_nothing
